@@ -2,7 +2,7 @@
 // K-model: ModelParameter::{mul, mul_add_assign, from_linear} and a crate-visible accessor
 // used by harnesses in other modules.
 //@harness name=mul_add_exact_unit tier=quick label=bounded(vector=1,weights=(1,0)) props=C10
-//@harness name=mul_add_exact_half tier=quick label=bounded(vector=1,weights=(.5,.5)) props=C10
+//@harness name=mul_add_exact_half tier=thorough label=bounded(vector=1,weights=(.5,.5)) props=C10 timeout=1200
 //@harness name=mul_add_exact_extrapolate tier=thorough label=bounded(vector=1,weights=(2,-1)) props=C10 timeout=900
 //@harness name=mul_unit_weight_identity tier=quick label=bounded(vector=2) props=C10
 //@harness name=mul_add_msd_presence tier=quick label=bounded(vector=1) props=C10
